@@ -82,7 +82,7 @@ PROPS = {
     ),
     "C17": dict(
         module="Anonymongo.Props.C16",
-        theorems=["Anonymongo.Atlas.C17_no_leftovers", "Anonymongo.Atlas.downloadLoop_live", "Anonymongo.Atlas.fileLoop_live"],
+        theorems=["Anonymongo.Atlas.C17_no_leftovers", "Anonymongo.Atlas.downloadLoop_live", "Anonymongo.Atlas.fileLoop_live", "Anonymongo.Facts_cleanup"],
         corr=[],
         statement="over the trace model, for EVERY number of hosts, every outcome of the cluster lookup, every download fault (HTTP status, transport error, temp-file creation failure, body cut mid-way - where a partial file exists) at every host, every per-file fault (output not creatable, line count, decompression / redaction failure) at every file, and on success: when the trace ends (return or os.Exit) no temporary file is alive; deferred functions do not run after os.Exit and the model says so",
         partial="OS behaviour (os.Remove failing, a killed process, signals) is outside the model; tied by whole-program runs with a private TMPDIR listed after every faulty run (1..4 hosts, every fault kind at every position)",
@@ -234,7 +234,7 @@ FACT_MODULES = {
     "Anonymongo.Facts_gate": "Gate", "Anonymongo.Facts_priv": "Priv", "Anonymongo.Facts_wiring": "Wiring",
     "Anonymongo.Facts_globals": "Globals", "Anonymongo.Facts_writes": "Writes", "Anonymongo.Facts_mapping_write_only": "Mapping",
     "Anonymongo.Facts_inits": "Inits", "Anonymongo.Facts_footprint": "Footprint", "Anonymongo.Facts_footprint_atlas": "Footprint",
-    "Anonymongo.Facts_atlas_requests": "AtlasReq", "Anonymongo.Facts_vocabulary": "Vocabulary", "Anonymongo.Facts_regex": "Regex",
+    "Anonymongo.Facts_atlas_requests": "AtlasReq", "Anonymongo.Facts_vocabulary": "Vocabulary", "Anonymongo.Facts_regex": "Regex", "Anonymongo.Facts_cleanup": "Cleanup",
 }
 # the two fixed regular expressions are the ones the model's recognisers were written for (e-mail class: C01, C05; plan summary: C15, C13)
 for _p in ["C01", "C05", "C13", "C15"]:
